@@ -26,6 +26,7 @@ class Query:
         self.inline_all = inline_all
         self.extra_cbmc = list(extra_cbmc)
         self.group = group
+        self.required_reach = expect_reach   # None: every REACH witness of the unit must be reachable
         self.result = None
         self.cfile = None
         self.ll = None
@@ -78,7 +79,7 @@ class Check:
                           mem_gb=q.mem_gb, extra=q.extra_cbmc, trace_property=trace_property)
         if trace_property is None:
             q.result = r
-            if not os.environ.get('VF_KEEP'):
+            if not os.environ.get('VF_KEEP') and not getattr(q, 'keep_c', False):
                 for f in (q.cfile, q.ll):
                     try:
                         os.unlink(f)
@@ -126,7 +127,7 @@ class Check:
     # ---------- counterexamples ----------
     def counterexample(self, q, prop):
         """re-run q with --trace for one failing property; returns the list of nondet values"""
-        if getattr(q, 'cfile_removed', False) or q.cfile is None or not os.path.exists(q.cfile):
+        if (getattr(q, 'cfile_removed', False) or q.cfile is None or not os.path.exists(q.cfile)) and not getattr(q, 'keep_c', False):
             q.cfile = None
             self.build(q)
         r = self.run_query(q, trace_property=prop)
@@ -182,7 +183,9 @@ class Check:
             if bound_fail:
                 self.broken.append('%s: stated bound exceeded: %s' % (q.name, bound_fail[:3]))
                 continue
-            if r.unreached:
+            missing = r.unreached if q.required_reach is None else [w for w in q.required_reach if w not in r.reached]
+            if missing:
+                r.unreached = missing
                 self.broken.append('%s: vacuous: witness(es) unreachable: %s' % (q.name, r.unreached[:4]))
             if r.status == 'FAIL':
                 self.handle_failure(q, finding_of)
@@ -222,7 +225,7 @@ class Check:
     # ---------- evidence ----------
     def finish(self, queries, rule, samples=None, trusted=None, stubs=None):
         wall = time.time() - self.t0
-        ok = [q for q in queries if q.result and q.result.status == 'OK' and not q.result.unreached]
+        ok = [q for q in queries if q.result and q.result.status == 'OK' and not (q.result.unreached if q.required_reach is None else [w for w in q.required_reach if w not in q.result.reached])]
         cov = {
             'evaluations': len(queries),
             'distinct_nontrivial': len(set(q.name for q in ok if q.result.reached or q.result.nprops > 0)),
